@@ -144,12 +144,15 @@ def exec (a : List String) : String :=
     | none =>
       ";".intercalate (res.map fun (_, l) => if l.isEmpty then "-" else ",".intercalate (l.map fun (_, (m, _)) => m))
   | ["surplus", ws, len, _op, ps] =>
-    -- whole words beyond ⌈len/64⌉: outside the model's domain; the answer is the linear-scan
-    -- definition over the first `len` bits
+    -- whole words beyond ⌈len/64⌉ (finding F1, repaired): model and linear-scan definition over the
+    -- first `len` bits
     let ws := parseWords ws; let len := parseNat len; let ps := parseNats ps
     let bits := bitsOf ws len
-    let res := ps.map fun p => optStr (BP.findClose bits p)
-    if res.isEmpty then "-" else ",".intercalate res
+    let wa := ws.toArray
+    let res := ps.map fun p => (p, optStr (freeFindClose wa len p), optStr (BP.findClose bits p))
+    match res.find? fun (_, m, s) => m != s with
+    | some (p, m, s) => s!"MODEL-SPEC surplus fc {p} model={m} spec={s}"
+    | none => if res.isEmpty then "-" else ",".intercalate (res.map fun (_, m, _) => m)
   | ["wk", w, vb] =>
     let w := parseWord w; let vb := parseNat vb
     let (m8, t16) := wordMinExcess w vb
